@@ -29,6 +29,7 @@ import ctypes
 import math
 import os
 import random
+import re
 import struct
 import warnings
 
@@ -1015,6 +1016,494 @@ def op_cases(ctx, add):
 
 
 # --------------------------------------------------------------------------
+# object histories (the quantifier's "histories"): ONE Grid / Catchment object taken
+# through a sequence of public operations.
+#
+# Every operation declares the attributes of the object it reads and the attributes it
+# (re)defines - `defines` is deliberately generous (a re-delineation may reset everything
+# derived).  Three clauses, all instances of the property's two sentences:
+#  H1 (untouched) after every step: every array the caller holds is bit-for-bit what it was
+#     before the step - the arrays passed to this or to ANY EARLIER call of the history
+#     (with the buffer around a strided view), and, for every attribute the operation does
+#     not define, both the array handed out by the public accessor before the step and the
+#     value the accessor gives after it; grid arguments keep their cell values;
+#  H2 (repeatable) the same operation with the same arguments at two steps between which no
+#     operation defined anything it reads returns the same result, exactly;
+#  H3 (repeatable, fresh object) at the end of the history the observers give, on a fresh
+#     object that received only the state-defining calls of the history (same arguments,
+#     same order; every pure observer and every derived-state operation left out), exactly
+#     what they give on the object that went through the whole history.
+# A step that raises is not a failure (H1 is still checked after it).
+
+def _hgrid(hygrid, data, dt="f8", name="g", csz=1.0, xll=0., yll=0.):
+    data = np.asarray(data, dtype=np.float64)
+    g = hygrid.Grid(name, data.shape[1], data.shape[0], cellsize=csz, xllcorner=xll, yllcorner=yll,
+                    dtype=NPDT[dt])
+    g.data = np.round(data) if dt.startswith("i") else data
+    return g
+
+
+class HOp:
+    def __init__(self, name, key, run, reads=(), defines=(), args=(), primary=False, keeps_values=True):
+        self.name, self.key, self.run = name, key, run
+        self.reads, self.defines = frozenset(reads), frozenset(defines)
+        self.args = tuple(args)            # labels of the pool arguments handed to this call
+        self.desc = (name if key is None or isinstance(key, tuple) and key[:1] == ("nd",) else
+                     f"{name}{key!r}" if isinstance(key, tuple) else f"{name}({key!r})")
+        self.primary = primary             # defines primary state: replayed on the fresh object (H3)
+        self.keeps_values = keeps_values   # a Grid object keeps its cell values across this call
+
+
+CATCH_ATTRS = ("idxcell_outlet", "idxinlets", "idxcells_area", "idxcells_area_filled", "idxcells_boundary",
+               "xycells_boundary", "flowpathlengths", "flowdir", "flowdir.data")
+CATCH_DERIVED = frozenset(CATCH_ATTRS) - {"flowdir", "flowdir.data"}
+GRID_ATTRS = ("data", "dtype", "limits", "nodata")
+
+
+def _get_state(obj):
+    """what a caller can take out of the object through its public accessors"""
+    out = {}
+    if type(obj).__name__ == "Catchment":
+        for nm in CATCH_ATTRS[:-2]:
+            try:
+                out[nm] = getattr(obj, nm)
+            except Exception:
+                out[nm] = None
+        out["flowdir"] = obj.flowdir                 # compared by cell values
+        out["flowdir.data"] = obj.flowdir.data       # the array itself, bit for bit
+    else:
+        out["data"] = obj.data
+        out["dtype"] = np.dtype(obj.dtype).str
+        out["limits"] = (float(obj.mindata), float(obj.maxdata))
+        out["nodata"] = repr(obj.nodata)
+    return out
+
+
+class History:
+    """one object, its pool of caller-side arguments, and the bookkeeping of H1-H3"""
+
+    def __init__(self, ctx, kind, replay, orc_fail):
+        self.ctx, self.kind, self.replay, self.orc_fail = ctx, kind, replay, orc_fail
+        self.track = []              # [label, object, snapshot]: caller-side arrays, for the whole history
+        self.version = {}
+        self.seen = {}               # (op name, op key, versions of its reads) -> (result, step)
+        self.steps = []              # names of the operations run so far
+        self.descs = []              # the same with the arguments drawn (outlet, pool index, options)
+        self.primary = []            # HOp to replay on the fresh object
+        self.obj = None
+        self.nfail = 0
+
+    def hold(self, label, obj, guards=()):
+        self.track.append([label, obj, snap(obj)])
+        self.replay.setdefault("arguments", {})[label] = short(obj, 12)
+        for k, b in enumerate(guards):
+            self.track.append([f"{label} (buffer around the strided view)", b, snap(b)])
+        return obj
+
+    def fail(self, key, what, **extra):
+        self.nfail += 1
+        rp = dict(self.replay, steps=list(self.descs), **extra)
+        self.orc_fail.add(-1 - len(self.orc_fail))
+        self.ctx.failure(key, rp, what)
+
+    def step(self, op):
+        obj, fn = self.obj, op.name.split("[")[0]
+        st0 = _get_state(obj)
+        sn0 = {k: snap(v) for k, v in st0.items()}
+        vals0 = snap(obj) if self.kind == "grid" else None
+        sig = (op.name, op.key, tuple(sorted((a, self.version.get(a, 0)) for a in op.reads)))
+        self.steps.append(op.name)
+        self.descs.append(op.desc)
+        k = len(self.steps)
+        cm.mark({"history": self.replay, "step": k, "steps": self.descs})
+        res, err, shown = None, None, None
+        with warnings.catch_warnings():
+            warnings.simplefilter("ignore")
+            with np.errstate(all="ignore"), quiet_stdout():
+                try:
+                    raw = op.run(obj)
+                    res, shown = canon(raw), short(raw, 40)
+                except Exception as e:
+                    err = e
+        status = "ok" if err is None else "raised:" + type(err).__name__
+        tail = "" if err is None else "/then-raised"
+        hist = f"step {k} of a history on one {type(obj).__name__} ({' -> '.join(self.steps[-4:])})"
+        # ---- H1: caller-side arrays
+        for t in self.track:
+            d = snap_diff(t[2], snap(t[1]))
+            if d:
+                when = "passed to this call" if t[0] in op.args else "passed to an earlier call of the history"
+                self.fail(f"C18/{fn}/argument-mutated:{re.sub(r'[0-9@]+$', '', t[0].split(' ')[0])}{tail}",
+                          f"{op.name} changed `{t[0]}` ({d}), an argument {when}; {hist}",
+                          argument=t[0], aspect=d, before=repr(t[2])[:200], after=short(t[1]), outcome=status)
+                t[2] = snap(t[1])
+        # ---- H1: the object's arrays that the operation does not define
+        st1 = _get_state(obj)
+        for a in st0:
+            if a in op.defines:
+                continue
+            d = snap_diff(sn0[a], snap(st0[a])) or snap_diff(sn0[a], snap(st1[a]))
+            if d:
+                self.fail(f"C18/{fn}/argument-mutated:self.{a}{tail}",
+                          f"{op.name} changed `{a}` of the object it was called on ({d}): the array the caller took "
+                          f"from the accessor before the call and/or the accessor's value after it; {hist}",
+                          argument=f"self.{a}", aspect=d, before=short(_unsnap(sn0[a])), held_after=short(st0[a]),
+                          accessor_after=short(st1[a]), outcome=status)
+        if vals0 is not None and op.keeps_values:
+            d = snap_diff(vals0, snap(obj))
+            if d:
+                self.fail(f"C18/{fn}/argument-mutated:self{tail}",
+                          f"{op.name} changed the cell values of the grid it was called with ({d}); {hist}",
+                          argument="self", aspect=d, after=short(obj), outcome=status)
+        for a in op.defines:
+            self.version[a] = self.version.get(a, 0) + 1
+        if op.primary:
+            self.primary.append(op)
+        self.ctx.count(("hist", self.kind, op.name, status.split(":")[0]))
+        if err is not None:
+            return None
+        # ---- H2
+        old = self.seen.get(sig)
+        if old is None:
+            self.seen[sig] = (res, k, shown)
+        elif old[0] != res:
+            self.fail(f"C18/{fn}/not-repeatable",
+                      f"{op.name}: the same call at steps {old[1]} and {k} of a history on one {type(obj).__name__} "
+                      f"returned different results although no call in between "
+                      f"({', '.join(sorted(set(self.steps[old[1]:k - 1]))) or 'none'}) defines anything it reads",
+                      first=old[2], second=shown, first_step=old[1], second_step=k)
+        return res, shown
+
+    def against_fresh(self, fresh, observers):
+        """H3"""
+        def quiet(f):
+            with warnings.catch_warnings():
+                warnings.simplefilter("ignore")
+                with np.errstate(all="ignore"), quiet_stdout():
+                    try:
+                        raw = f()
+                        return canon(raw), short(raw, 40)
+                    except Exception:
+                        return None
+        for op in self.primary:
+            quiet(lambda op=op: op.run(fresh))
+        for op in observers:
+            r1 = self.step(op)
+            r2 = quiet(lambda op=op: op.run(fresh))
+            if r1 is None or r2 is None:
+                continue
+            if r1[0] != r2[0]:
+                left_out = sorted(set(self.steps) - {o.name for o in self.primary} - {o.name for o in observers})
+                self.fail(f"C18/{op.name.split('[')[0]}/not-repeatable",
+                          f"{op.name} on the object that went through the history differs from the same call on a fresh "
+                          f"object that received the same state-defining calls "
+                          f"({', '.join(o.name for o in self.primary)}) without the other ones ({', '.join(left_out)})",
+                          after_history=r1[1], fresh=r2[1],
+                          state_defining_calls=[o.desc for o in self.primary])
+
+
+def _unsnap(s):
+    """readable form of a snapshot (for replays)"""
+    try:
+        if s and s[0] == "nd":
+            return np.frombuffer(s[3], dtype=np.dtype(s[1])).reshape(s[2])
+    except Exception:
+        pass
+    return repr(s)[:120]
+
+
+def catchment_history(ctx, hygrid, crng, cls, fdt, nsteps, replay, orc_fail):
+    nr, nc = crng.choice([(6, 7), (7, 8), (8, 7)])
+    fd = _flow_grid(crng, nr, nc)
+    H = History(ctx, "catchment", replay, orc_fail)
+    replay["flowdir"] = fd.astype(int).tolist()
+    g = H.hold("flowdir", _hgrid(hygrid, fd, fdt, name="fd"))
+    H.hold("flowdir.data", g.data)
+    # outlets with a sizeable area (found on a scratch object)
+    scout, areas = hygrid.Catchment("scout", g), {}
+    with quiet_stdout():
+        for cell in range(nr * nc):
+            try:
+                scout.delineate_area(cell, nval=200)
+                areas[cell] = [int(x) for x in scout.idxcells_area]
+            except ValueError:
+                pass
+    big = sorted(areas, key=lambda c: (-len(areas[c]), c))[:6]
+    outlets = crng.sample(big, min(3, len(big)))
+    replay["outlets"] = outlets
+
+    def arg(label, arr):
+        o, guards = convert(arr, cls, label)
+        return H.hold(label, o, guards)
+    inlets = {}
+    for o in outlets:
+        up = areas[o][1:]
+        inlets[o] = [None]
+        if len(up) >= 3:
+            inlets[o].append(arg(f"idxinlets{o}", Arr([float(c) for c in crng.sample(up, crng.choice([1, 2]))], ints=True)))
+    idxs = [arg(f"idx{j}", Arr([float(crng.randrange(nr * nc)) for _ in range(5)], ints=True)) for j in range(2)]
+    pts = arg("xypoints", Arr([[crng.uniform(0, nc), crng.uniform(0, nr)] for _ in range(4)]))
+    igrids = []
+    for j, (dt, csz) in enumerate((("f8", 2.0), ("i8", 3.0))):
+        k = int(max(nr, nc) // csz) + 2
+        igrids.append(H.hold(f"grid{j}", _hgrid(hygrid, np.ones((k, k)), dt, name=f"ig{j}", csz=csz, xll=-0.5, yll=-0.5)))
+    other = hygrid.Catchment("other", g)
+    with quiet_stdout():
+        other.delineate_area(big[-1], nval=200)
+    for a, v in _get_state(other).items():
+        H.hold(f"other.{a}", v)
+
+    def proj(x, y):
+        return 1000. * x, 1000. * y
+    H.obj = hygrid.Catchment("c", g)
+    ALLC = frozenset(CATCH_ATTRS)
+    AREA = {"idxcells_area", "idxcells_area_filled", "flowdir", "flowdir.data"}
+    FD = {"flowdir", "flowdir.data"}
+
+    def op_area(o, inl, j):
+        def run(c):
+            c.delineate_area(o, inl, nval=200)
+            return c.idxcells_area, c.idxcells_area_filled
+        return HOp("Catchment.delineate_area", (o, j), run, reads=FD, defines=CATCH_DERIVED,
+                   args=() if inl is None else (f"idxinlets{o}",), primary=True)
+
+    def op_boundary(mask=None, label=None):
+        def run(c):
+            c.delineate_boundary() if mask is None else c.delineate_boundary(mask)
+            return c.idxcells_boundary, c.xycells_boundary
+        return HOp("Catchment.delineate_boundary" + ("" if mask is None else "[mask]"),
+                   None if mask is None else snap(mask), run, reads=AREA,
+                   defines={"idxcells_boundary", "xycells_boundary"}, args=() if mask is None else (label,))
+
+    def run_fp(c):
+        c.compute_flowpathlengths()
+        return c.flowpathlengths
+    op_fp = HOp("Catchment.compute_flowpathlengths", None, run_fp, reads=AREA | {"idxcell_outlet"},
+                defines={"flowpathlengths"})
+
+    def op_intersect(j, filled):
+        return HOp("Catchment.intersect", (j, filled), lambda c: c.intersect(igrids[j], filled=filled), reads=AREA,
+                   args=(f"grid{j}",))
+    op_todict = HOp("Catchment.to_dict", None, lambda c: c.to_dict(), reads=ALLC)
+    op_extent = HOp("Catchment.extent", None, lambda c: c.extent(), reads=AREA)
+    op_area_arrays = HOp("Catchment.idxcells_area", None, lambda c: (c.idxcells_area, c.idxcells_area_filled), reads=AREA)
+    op_voronoi = HOp("grid.voronoi", None, lambda c: hygrid.voronoi(c, pts), reads=AREA, args=("xypoints",))
+
+    def choose():
+        r = crng.random() * 22.6
+        if r < 2:
+            o = crng.choice(outlets)
+            j = crng.randrange(len(inlets[o]))
+            return op_area(o, inlets[o][j], j)
+        if r < 5:
+            return op_boundary()
+        if r < 6:
+            try:
+                filled = H.obj.idxcells_area_filled
+            except ValueError:
+                return op_boundary()
+            m = np.zeros(nr * nc)
+            m[np.asarray(filled)] = 1
+            label = f"mask@{len(H.steps) + 1}"
+            mask = arg(label, Arr(m, ints=True, containers=("nd",)))
+            return op_boundary(mask, label)
+        if r < 8:
+            return op_fp
+        if r < 12:
+            return op_intersect(crng.randrange(2), crng.random() < 0.3)
+        if r < 14:
+            return op_todict
+        if r < 15:
+            return op_extent
+        if r < 16:
+            cell, filled = crng.choice(areas[outlets[0]]), crng.random() < 0.5
+            return HOp("Catchment.isin", (cell, filled), lambda c: c.isin(cell, filled=filled), reads=AREA)
+        if r < 17:
+            j = crng.randrange(2)
+            return HOp("Catchment.upstream", j, lambda c: c.upstream(idxs[j]), reads=FD, args=(f"idx{j}",))
+        if r < 18:
+            j = crng.randrange(2)
+            return HOp("Catchment.downstream", j, lambda c: c.downstream(idxs[j]), reads=FD, args=(f"idx{j}",))
+        if r < 19:
+            return HOp("Catchment.compute_area", None, lambda c: c.compute_area(proj),
+                       reads=FD | {"idxcells_boundary", "xycells_boundary"})
+        if r < 20:
+            return op_voronoi
+        if r < 20.5:
+            return HOp("Catchment.clone", None, lambda c: c.clone(), reads=ALLC)
+        if r < 21:
+            return HOp("Catchment.__add__", None, lambda c: c + other, reads=ALLC)
+        if r < 21.5:
+            return HOp("Catchment.__sub__", None, lambda c: c - other, reads=ALLC)
+        if r < 22:
+            def rt(c):
+                c2 = hygrid.Catchment.from_dict(c.to_dict())
+                c2.delineate_boundary()
+                return c2
+            return HOp("Catchment.from_dict", None, rt, reads=ALLC)
+        if r < 22.3:
+            return HOp("grid.accumulate", None, lambda c: hygrid.accumulate(c.flowdir, nprint=1000), reads=FD)
+        cell = crng.choice(areas[outlets[0]])
+        return HOp("grid.delineate_river", cell, lambda c: hygrid.delineate_river(c.flowdir, cell, nval=40), reads=FD)
+
+    o = outlets[0]
+    H.step(op_area(o, None, 0))
+    for _ in range(nsteps):
+        H.step(choose())
+    H.against_fresh(hygrid.Catchment("c", g),
+                    [op_area_arrays, op_intersect(0, False), op_intersect(1, True), op_todict, op_extent, op_voronoi,
+                     op_fp, op_boundary()])
+    return H
+
+
+def grid_history(ctx, hygrid, crng, cls, gdt, nsteps, replay, orc_fail):
+    from hydrodiy.gis import gutils  # noqa: F401
+    nr, nc = 5, 6
+    H = History(ctx, "grid", replay, orc_fail)
+
+    def arg(label, arr):
+        o, guards = convert(arr, cls, label)
+        return H.hold(label, o, guards)
+
+    def cells():
+        return [[float(crng.randint(1, 30)) for _ in range(nc)] for _ in range(nr)]
+    first = cells()
+    replay["data"] = first
+    values = [arg(f"value{j}", Arr(cells())) for j in range(2)]
+    index = arg("index", Arr([float(c) for c in crng.sample(range(nr * nc), 4)], ints=True))
+    newvals = arg("newvalues", Arr([float(crng.randint(1, 30)) for _ in range(4)]))
+    xy = arg("xycoords", Arr([[crng.uniform(0.1, nc - 0.1), crng.uniform(0.1, nr - 0.1)] for _ in range(6)]))
+    cellidx = arg("idxcells", Arr([float(crng.randrange(nr * nc)) for _ in range(5)], ints=True))
+    poly = arg("polygon", Arr([[0.6, 0.7], [5.2, 0.9], [4.8, 4.4], [2.5, 2.2], [0.9, 4.1]]))
+    target = H.hold("grid", _hgrid(hygrid, np.zeros((4, 4)), gdt, name="target", csz=1.25, xll=0.3, yll=0.2))
+    fdir = H.hold("flowdir", _hgrid(hygrid, _flow_grid(crng, nr, nc), "i8", name="fd"))
+    ALLG = frozenset(GRID_ATTRS)
+    DATA = frozenset({"data"})
+
+    def setdata(j):
+        def run(g):
+            g.data = values[j]
+            return g.data.copy()
+        return HOp("Grid.data[setter]", j, run, reads={"dtype", "limits"}, defines=DATA, args=(f"value{j}",),
+                   primary=True, keeps_values=False)
+
+    def run_setitem(g):
+        g[index] = newvals
+        return g.data.copy()
+
+    def run_fill(g, v):
+        g.fill(v)
+        return g.data.copy()
+
+    def run_dtype(g, t):
+        g.dtype = NPDT[t]
+        return g.data.copy()
+
+    def run_limits(g):
+        g.mindata = 3
+        g.maxdata = 27
+        return g.data.copy()
+
+    def _censor(x):
+        x[x < 15] = 0
+        return x
+
+    def run_catchment(g):
+        c = hygrid.Catchment("c", g)
+        c.flowdir.fill(1)           # what is done to the catchment's flow directions must not reach the grid
+        return c.flowdir
+    observers = [
+        HOp("Grid.coord2cell", None, lambda g: g.coord2cell(xy), reads=ALLG, args=("xycoords",)),
+        HOp("Grid.slice", None, lambda g: g.slice(xy), reads=ALLG, args=("xycoords",)),
+        HOp("Grid.cell2coord", None, lambda g: g.cell2coord(cellidx), reads=ALLG, args=("idxcells",)),
+        HOp("Grid.cell2rowcol", None, lambda g: g.cell2rowcol(cellidx), reads=ALLG, args=("idxcells",)),
+        HOp("Grid.__getitem__", None, lambda g: g[index], reads=ALLG, args=("index",)),
+        HOp("Grid.clip", None, lambda g: g.clip(1.2, 1.3, 4.5, 3.9), reads=ALLG),
+        HOp("Grid.apply", "sqrt", lambda g: g.apply(np.sqrt), reads=ALLG),
+        HOp("Grid.apply[in-place multiply]", None, lambda g: g.apply(lambda x: np.multiply(x, 2, out=x)), reads=ALLG),
+        HOp("Grid.apply[in-place mask]", None, lambda g: g.apply(_censor), reads=ALLG),
+        HOp("Grid.clone", "f4", lambda g: g.clone(np.float32), reads=ALLG),
+        HOp("Grid.clone", None, lambda g: g.clone(), reads=ALLG),
+        HOp("Grid.interpolate", None, lambda g: g.interpolate(target), reads=ALLG, args=("grid",)),
+        HOp("Grid.to_dict/from_dict", None, lambda g: hygrid.Grid.from_dict(g.to_dict()), reads=ALLG),
+        HOp("Grid.cells_inside_polygon", None, lambda g: g.cells_inside_polygon(poly), reads=ALLG, args=("polygon",)),
+        HOp("Grid.data", None, lambda g: g.data, reads=ALLG),
+        HOp("Catchment.__init__", None, run_catchment, reads=ALLG),
+    ]
+    # grid-level functions retype the grids they are given (documented): the cell values stay
+    retyping = [
+        HOp("grid.accumulate", None, lambda g: hygrid.accumulate(fdir, g, nprint=1000), reads=ALLG,
+            defines={"data", "dtype"}, args=("flowdir",), primary=True),
+        HOp("grid.slope", None, lambda g: hygrid.slope(fdir, g, nprint=1000), reads=ALLG,
+            defines={"data", "dtype"}, args=("flowdir",), primary=True),
+    ]
+
+    def choose():
+        r = crng.random()
+        if r < 0.12:
+            return setdata(crng.randrange(2))
+        if r < 0.20:
+            return HOp("Grid.__setitem__", None, run_setitem, reads=ALLG, defines=DATA, args=("index", "newvalues"),
+                       primary=True, keeps_values=False)
+        if r < 0.25:
+            v = crng.randint(1, 30)
+            return HOp("Grid.fill", v, lambda g: run_fill(g, v), reads=ALLG, defines=DATA, primary=True,
+                       keeps_values=False)
+        if r < 0.29:
+            t = crng.choice(["f8", "i8", "f4", "i4"])
+            return HOp("Grid.dtype[setter]", t, lambda g: run_dtype(g, t), reads=ALLG, defines={"data", "dtype", "nodata"},
+                       primary=True, keeps_values=False)
+        if r < 0.32:
+            return HOp("Grid.mindata/maxdata[setter]", None, run_limits, reads=ALLG, defines={"data", "limits"},
+                       primary=True, keeps_values=False)
+        if r < 0.38:
+            return crng.choice(retyping)
+        return crng.choice(observers)
+
+    def fresh():
+        return _hgrid(hygrid, first, gdt)
+    H.obj = fresh()
+    for _ in range(nsteps):
+        H.step(choose())
+    H.against_fresh(fresh(), observers)
+    return H
+
+
+def run_histories(ctx, rng, orc_fail):
+    from hydrodiy.gis import grid as hygrid
+    todo = []
+    rp = ctx.replay.get("replay") if ctx.replay else None
+    if isinstance(rp, dict) and "history" in rp:
+        todo.append((rp["history"], tuple(rp["cls"]), rp["dtype"], rp["sub"], rp["nsteps"]))
+    ncatch, ngrid = ctx.scale(36, 240), ctx.scale(28, 160)
+    pool = CLASSES + [("mix", str(rng.randrange(10 ** 6)), "") for _ in range(ctx.scale(4, 12))]
+    for k in range(ncatch):
+        todo.append(("catchment", pool[k % len(pool)], ("i8", "f8", "i4")[k % 3 if k % 7 else rng.randrange(3)],
+                     rng.randrange(10 ** 9), rng.choice([10, 14, 18])))
+    for k in range(ngrid):
+        todo.append(("grid", pool[k % len(pool)], ("f8", "i8", "f4", "i4")[rng.randrange(4)],
+                     rng.randrange(10 ** 9), rng.choice([10, 14, 18])))
+    nsteps_run, nfail, nbuild = 0, 0, 0
+    for kind, cls, dt, sub, nsteps in todo:
+        crng = random.Random(f"hist:{kind}:{sub}")
+        replay = {"history": kind, "cls": list(cls), "dtype": dt, "sub": sub, "nsteps": nsteps}
+        fn = catchment_history if kind == "catchment" else grid_history
+        try:
+            with warnings.catch_warnings():
+                warnings.simplefilter("ignore")
+                H = fn(ctx, hygrid, crng, cls, dt, nsteps, replay, orc_fail)
+        except Exception as e:              # a history that cannot be built is a harness problem, not a verdict
+            nbuild += 1
+            ctx.notes.setdefault("build_failures", []).append(f"history {kind} {cls} {dt}: {type(e).__name__}: {e}"[:200])
+            continue
+        nsteps_run += len(H.steps)
+        nfail += H.nfail
+    ctx.notes["histories_run"] = len(todo) - nbuild
+    ctx.notes["history_steps"] = nsteps_run
+    ctx.obligation("object histories ran (generator not degenerate)", nsteps_run >= 8 * len(todo) and nbuild == 0)
+
+
+# --------------------------------------------------------------------------
 
 def run(ctx):
     ctx.rule = ("every public function of the property's list (catalogue in harness/props/c18.py) x input classes "
@@ -1235,6 +1724,9 @@ def collect(ctx):
                 orc_fail.add(-1 - len(orc_fail))
                 ctx.failure(key, rp, f"{fname} changed its argument `{kname}` on the second call (class {cls})")
     probe.uninstall()
+
+    # ---- object histories (H1-H3)
+    run_histories(ctx, rng, orc_fail)
 
     # kernels seen to modify a parameter outside the extracted write-set
     for ename, an in sorted(set(probe.write_outside)):
